@@ -66,7 +66,7 @@ def run(ctx):
         o["postings"][n][v] = o["postings"][n][v][1:]
         ctx.log("CORRUPTED record 0: first series removed from predicted postings %s=%s" % (n, v))
     inp = ctx.write_ndjson("blocks.ndjson", recs)
-    gr = ctx.go_test("tsdb", ["c24_blockfmt_test.go"], "^TestVerifC24BlockFmt$", env={"VERIF_IN": inp})
+    gr = ctx.go_test("tsdb", ["c24_blockfmt_test.go"], "^TestVerifC24BlockFmt$", env={"VERIF_IN": inp}, timeout="60m")
     ctx.absorb(gr, label="C24 replay")
     ctx.assumptions += [
         "bounded model (see specs/blockfmt/*.cfg)",
